@@ -546,6 +546,7 @@ def run(prog: Program, rep: Report, tier: str = "quick") -> None:
     from . import game
 
     game.add_instances(rep, game.c07_job, [(i, tier) for i in range(n)], "R7.11", 28 * n)
+    rep.arbitrate({"R7.A", "R7.1", "R7.2", "R7.3", "R7.4", "R7.6", "R7.7", "R7.7f", "R7.8", "R7.9"}, "R7.11", "the pairwise exchanges cancel / the softmax is normalised over the set it is summed over")
     rep.supersede({"R7.A", "R7.1", "R7.2", "R7.3", "R7.4", "R7.6", "R7.7", "R7.7f", "R7.8", "R7.9"}, "R7.11", "the pairwise exchanges cancel / the softmax is normalised over the set it is summed over")
     rep.floor("R7.5", n)
     rep.floor("R7.A", n - 1)
